@@ -581,7 +581,13 @@ def _check_property(prop, tier, seed, sel, scratch, t_start):
                 # same computation on millions of elements (stack exhaustion in the dev profile)
                 tests = [None]
             else:
-                r2 = run_kani(crate, scratch, h, prop, ["-Z", "concrete-playback", "--concrete-playback=print"], tag="-cex", extra_cfg=["vp_nocover"], timeout_factor=4)
+                # restrict the (unsliced, trace-producing) run to the failing properties: ~2x faster
+                props = []
+                for f in remaining[:2]:
+                    props += ["--property", f["name"]]
+                r2 = run_kani(crate, scratch, h, prop, ["-Z", "concrete-playback", "--concrete-playback=print", "-Z", "unstable-options", "--cbmc-args"] + props, tag="-cex", extra_cfg=["vp_nocover"], timeout_factor=4)
+                if not extract_values(r2["raw"]):
+                    r2 = run_kani(crate, scratch, h, prop, ["-Z", "concrete-playback", "--concrete-playback=print"], tag="-cex2", extra_cfg=["vp_nocover"], timeout_factor=4)
                 tests = extract_values(r2["raw"])
                 want = set(f["desc"] for f in remaining)
                 tests = [t[2] for t in tests if t[1] in want] + [t[2] for t in tests if t[1] not in want and t[0] != "cover"]
